@@ -49,6 +49,7 @@ fn main() {
         ("C12", "drive") => c12::drive_c12(rest),
         ("C12", "hooked") => c12::drive_hooked(rest),
         ("C13", "drive") => c12::drive_c13(rest),
+        ("C13", "core-one") => c12::core_one(rest),
         ("C14", "replay") => c14::replay(rest),
         ("C14", "drive") => c14::drive(rest),
         ("C15", "drive") => c15::drive_c15(rest),
